@@ -87,7 +87,7 @@ fn forged_child(chain: &Chain, parent_n: u64, kind: u8, factor: u32, salt: u64, 
         .timestamp((now - 1000 + salt % 500).pack())
         .extension(Some(Bytes::from(ext).pack()))
         .build();
-    let (h, _) = mine_header(&chain.pow, block.header(), salt as u128);
+    let (h, _) = crate::lcv::sim::chain::mine_header_bounded(&chain.pow, block.header(), salt as u128, 200_000);
     let vh = packed::VerifiableHeader::new_builder().header(h.data()).uncles_hash(block.calc_uncles_hash()).extension(Pack::pack(&block.extension())).parent_chain_root(root).build();
     (vh, h)
 }
@@ -264,7 +264,7 @@ fn run_inner(case: &Case, obs: &mut Obs) -> Result<(), Failure> {
                                     let ext: packed::Bytes = Bytes::from(forged_root.calc_mmr_hash().as_slice().to_vec()).pack();
                                     let extra = ckb_types::core::ExtraHashView::new(lh.uncles_hash(), Some(ext.calc_raw_data_hash())).extra_hash();
                                     let hv: HeaderView = lh.header().into_view();
-                                    let (h, _) = mine_header(&w.chains[0].pow, hv.as_advanced_builder().extra_hash(extra).build(), *factor as u128);
+                                    let (h, _) = crate::lcv::sim::chain::mine_header_bounded(&w.chains[0].pow, hv.as_advanced_builder().extra_hash(extra).build(), *factor as u128, 200_000);
                                     let true_parent_td = reg.td.get(&hv.parent_hash()).map(|x| x.0.clone()).unwrap_or_default();
                                     reg.td.entry(h.hash()).or_insert((&true_parent_td + h.difficulty(), hv.parent_hash(), hv.number()));
                                     let lh2 = lh.as_builder().header(h.data()).extension(Pack::<packed::BytesOpt>::pack(&Some(ext))).parent_chain_root(forged_root).build();
